@@ -91,14 +91,14 @@ def semantic(obj):
         out["amplitude"] = [sha_array(np.asarray(h.amplitude, float)) for h in obj.hvsrs]
         out["masks"] = [[np.asarray(h.valid_window_boolean_mask).tolist(),
                          np.asarray(h.valid_peak_boolean_mask).tolist()] for h in obj.hvsrs]
-        out["peaks"] = [[_arr(h.peak_frequencies), _arr(h.peak_amplitudes)] for h in obj.hvsrs]
+        out["peaks"] = [_peaks(h) for h in obj.hvsrs]
         out["stats"] = _stats(obj)
     elif isinstance(obj, H.HvsrTraditional):
         out["frequency"] = sha_array(np.asarray(obj.frequency, float))
         out["amplitude"] = sha_array(np.asarray(obj.amplitude, float))
         out["masks"] = [np.asarray(obj.valid_window_boolean_mask).tolist(),
                         np.asarray(obj.valid_peak_boolean_mask).tolist()]
-        out["peaks"] = [_arr(obj.peak_frequencies), _arr(obj.peak_amplitudes)]
+        out["peaks"] = _peaks(obj)
         out["stats"] = _stats(obj)
     else:
         out["frequency"] = sha_array(np.asarray(obj.frequency, float))
@@ -113,6 +113,13 @@ def semantic(obj):
     out["range"] = jsonish(obj.meta.get("search_range_in_hz"))
     out["find_peaks_kwargs"] = jsonish(obj.meta.get("find_peaks_kwargs"))
     return out
+
+
+def _peaks(h):
+    try:
+        return [_arr(h.peak_frequencies), _arr(h.peak_amplitudes)]
+    except Exception as e:                                   # noqa  (e.g. a mask of the wrong length)
+        return ["raised", type(e).__name__]
 
 
 def _arr(a):
